@@ -22,7 +22,7 @@ func (g *Gen) generate(id string) {
 		if b.Loop >= 0 || b.Context {
 			continue // verified as part of their function / case
 		}
-		if _, ok := b.flag("trusted"); ok {
+		if _, ok := b.flag("trusted"); ok && b.Case == "" {
 			g.Assumed["trusted contract (not verified): "+b.ID()] = true
 			continue
 		}
